@@ -116,7 +116,7 @@ var c13MalformedList []c13Malformed
 func init() {
 	c13BuildPairs()
 	for _, op := range []string{"put", "get", "update", "delete", "batchwrite", "batchget", "put-cond-false", "update-cond-false", "delete-cond-false", "put-cond-true", "query-start-key", "scan-start-key"} {
-		for _, d := range []string{"missing-hash", "missing-range", "empty-key", "hash-empty-value", "range-empty-value", "surplus-attribute"} {
+		for _, d := range []string{"missing-hash", "missing-range", "empty-key", "hash-empty-value", "range-empty-value", "surplus-attribute", "hash-two-types", "range-two-types", "range-untyped"} {
 			c13MalformedList = append(c13MalformedList, c13Malformed{op, d})
 		}
 		for _, k := range val.AllKinds {
@@ -470,6 +470,13 @@ func (p *c13) malformed(x *res, adapter string, ctx *runner.Ctx) {
 			key["h"] = val.Str("")
 		case mf.defect == "range-empty-value":
 			key["r"] = val.Str("")
+		case mf.defect == "hash-two-types":
+			// a key value that carries the declared type AND another one (the SDK v1 structure can express it): not a key value
+			key["h"] = val.Invalid("two-types")
+		case mf.defect == "range-two-types":
+			key["r"] = val.Invalid("two-types")
+		case mf.defect == "range-untyped":
+			key["r"] = val.Invalid("empty")
 		case len(mf.defect) > 10 && mf.defect[:10] == "hash-type-":
 			key["h"] = mon.ValueOfKind(mon.Rng(1, "x", 1), val.Kind(mf.defect[10:]), 1, mon.GenOpts{NoEmptyLM: true})
 		default:
